@@ -176,6 +176,18 @@ def rename_histories():
     return out
 
 
+def cdup_histories():
+    """the working directory is two levels down; its parent (or itself) is renamed away, removed or re-made by absolute
+    name; then CDUP - which is CWD to the parent with everything CWD checks - and the session's view of where it is"""
+    out = []
+    changes = [[], ["RNFR /d", "RNTO /e"], ["RNFR /d/s", "RNTO /s2"], ["RNFR /d/s", "RNTO /d/t"], ["RNFR /d", "RNTO /e", "MKD /d"],
+               ["RMD /d/s"], ["RNFR /d", "RNTO /e", "RNFR /g", "RNTO /d"], ["DELE /d/f"]]
+    for change in changes:
+        for tail in (["CDUP", "PWD", "CDUP", "PWD"], ["CDUP", "MLST", "PWD"], ["CDUP", "MKD here", "PWD"], ["PWD", "CDUP", "CWD s", "PWD"]):
+            out.append(["USER anonymous", "EPSV", "MKD d/s", "CWD d/s"] + change + tail)
+    return out
+
+
 def late_histories():
     """a transfer verb sent before its data connection exists, any harmless command in between, then the connection"""
     from vf.conform import LATE_MID
@@ -294,6 +306,71 @@ def ipv6_case(item):
     return part
 
 
+ONDISK_NAMES = [b"bad\xff.txt", b"latin\xe9.txt", b"\xc3", b"ok-\xe2\x82", b"caf\xc3\xa9.txt"]      # the last one is valid UTF-8
+
+
+def ondisk_case(item):
+    """a served directory holds entries made outside FTP whose names are not text in the server's encoding (bytes that
+    are no UTF-8; on an ascii / latin-1 server also perfectly good Unicode names): whatever the listing shows of them,
+    every command gets its one final reply and the session goes on"""
+    backend, encoding, verb = item
+    import os
+    from vf.rig import Rig
+    part = report.Partial()
+    problems = []
+    rig = Rig(tree={"d": {"plain": b"x"}, "keep": b"k"}, backend=backend, server_kwargs={"wait_future_timeout": 1, "encoding": encoding})
+    try:
+        w = rig.world
+        base = os.fsencode(str(rig.base))
+        try:
+            for name in ONDISK_NAMES:
+                with open(os.path.join(base, b"d", name), "wb") as f:
+                    f.write(b"content")
+            os.mkdir(os.path.join(base, b"d", b"dir\xfe"))
+        except OSError:
+            # (a file system that refuses such names: the case cannot be set up here)
+            return part
+        s = rig.sessions[0]
+        rig.ev(0, "@connect")
+        rig.ev(0, "USER anonymous")
+        for line in (verb + " d", "CWD d", verb):
+            if line.split(" ")[0] in ("LIST", "MLSD"):
+                rig.ev(0, "EPSV")
+                rig.ev(0, "@data")
+            r = rig.ev(0, line) or []
+            codes = [c for c, _ in r]
+            finals = [c for c in codes if c[:1] != "1"]
+            marks = [c for c in codes if c[:1] == "1"]
+            if s.closed():
+                problems.append({"kind": "session-ended-without-announcement", "line": line, "got": codes})
+                break
+            if len(finals) != 1 or (line.split(" ")[0] in ("LIST", "MLSD") and finals[0][:1] == "2" and len(marks) != 1):
+                problems.append({"kind": "replies", "line": line, "got": codes, "expected": "one mark, one completion reply"})
+                break
+            if marks and s.data is not None and not s.data.eof:
+                problems.append({"kind": "data-connection-left-open", "line": line, "got": codes})
+                break
+            if line.split(" ")[0] in ("LIST", "MLSD") and finals[0][:1] == "2" and b"plain" not in bytes(s.data.received if s.data else b""):
+                problems.append({"kind": "listing-lost-its-ordinary-entries", "line": line, "data": bytes(s.data.received if s.data else b"")[:200].decode("latin-1")})
+                break
+        if not problems:
+            r = rig.ev(0, "PWD") or []
+            if [c for c, _ in r] != ["257"]:
+                problems.append({"kind": "replies", "line": "PWD afterwards", "got": [c for c, _ in r], "expected": ["257"]})
+        part.evaluations += 1
+        part.traces += 1
+        part.transitions += w.net.n_events
+        k = report.fp(["ondisk", item])
+        part.states.add(k)
+        part.nontrivial.add(k)
+        for p_ in problems[:1]:
+            part.violation({"kind": p_["kind"], "verb": verb, "ondisk_names": True, "encoding": encoding},
+                           {"problem": p_, "case": list(item)}, replay={"ondisk": list(item)})
+    finally:
+        rig.close()
+    return part
+
+
 def tls_case(item):
     """a server configured with an ssl context: every listener it opens - the passive ones too, with and without a
     restricted port pool - is given that context (SimNet carries no TLS; what is compared is the listener's setting)"""
@@ -345,9 +422,13 @@ def run(tier, seed, t0):
         parts.append(sweep_hist("memory", late_histories(), "late-data"))
         parts.append(sweep_hist("memory/wait-for-ever", late_histories()[::3], "late-data"))
         parts.append(sweep_hist("memory", rename_histories(), "rename-ancestor"))
+        parts.append(sweep_hist("memory", cdup_histories(), "cdup"))
+        parts.append(sweep_hist("pathio", cdup_histories(), "cdup"))
     else:
         parts.append(sweep_hist("memory/wait-for-ever", late_histories(), "late-data"))
         parts.append(sweep_hist("memory", rename_histories(), "rename-ancestor"))
+        parts.append(sweep_hist("memory", cdup_histories(), "cdup"))
+        parts.append(sweep_hist("pathio", cdup_histories(), "cdup"))
         parts.append(sweep_hist("pathio", rename_histories(), "rename-ancestor"))
         parts.append(sweep_hist("memory", late_histories(), "late-data"))
         parts.append(sweep_hist("pathio", late_histories(), "late-data"))
@@ -362,6 +443,8 @@ def run(tier, seed, t0):
         parts.append(sweep("memory", ["USER anonymous", "EPSV", "@data", "REST 2"], ALPHABET, 2))
     parts.append(sweep_hist("memory", attribute_name_histories(), "attribute-names"))
     parts += report.pmap(tls_case, [(pool, verb) for pool in ((), (30001,), (30001, 30002)) for verb in ("PASV", "EPSV")])
+    parts += report.pmap(ondisk_case, [(b, enc, v) for b in ("pathio", "async") for enc in ("utf-8", "latin-1", "ascii")
+                                       for v in ("LIST", "MLSD", "MLST")])
     parts += report.pmap(ipv6_case, [(pre,) for pre in ([], ["PWD"], ["EPSV"], ["EPSV", "@data"], ["REST 2"])])
     parts += report.pmap(timeout_case, [(pre, line) for pre in TIMEOUT_PREFIXES for line in ALPHABET])
     part = report.merge_all(parts)
@@ -387,6 +470,10 @@ def replay(path):
     rp = data["replay"]
     if "tls" in rp:
         part = tls_case((tuple(rp["tls"][0]), rp["tls"][1]))
+        print(json.dumps([v["detail"] for v in part.violations], indent=1, default=repr))
+        return 1 if part.violations else 0
+    if "ondisk" in rp:
+        part = ondisk_case(tuple(rp["ondisk"]))
         print(json.dumps([v["detail"] for v in part.violations], indent=1, default=repr))
         return 1 if part.violations else 0
     if "ipv6" in rp:
